@@ -93,6 +93,8 @@ def o2o_templates():
 
 
 def classify(msg):
+    if msg.startswith("unexpected end of input, "):
+        msg = msg[len("unexpected end of input, "):]
     if msg in FORCE_LIB:
         return "lib"
     for p in o2o_templates():
